@@ -203,10 +203,12 @@ def _run_main(repo: Repo, ctx) -> None:
                sample='arm present')
     sv = repo.find_method(opcls.qualname, '_set_value')
     scopes = list(repo.cls('edb.edgeql.qltypes.ConfigScope').assign_fields)
-    txt = norm(sv.node)
+    from ..shapes import reach, mentions_member
+    rn = reach(repo, sv)
+    txt = '\n'.join(norm(n) for n in rn)
     for s in scopes:
         ctx.ob('C19.R2', f'Operation._set_value:scope={s}',
-               f'self.scope is qltypes.ConfigScope.{s}' in txt,
+               mentions_member(rn, 'ConfigScope', s),
                f'_set_value has no source for scope {s}', sv.loc,
                sample='arm present')
     ctx.ob('C19.R2', 'Operation._set_value:else-raises',
